@@ -125,6 +125,7 @@ func c09(tier string) int {
 	totalTrans += pathExhaustive(run, tier, c09Monitor(run))
 	// Fault leg: the table must still be the table after a storage failure
 	// (verdicts of fault-free requests judged from what is really stored).
+	c09AfterLarge(run)
 	runFaults(run, "C09", tier, false)
 	// Concurrent leg: the same checkpoint and old size submitted twice at once,
 	// with a correct and with a garbage proof / byte-identically: each request
@@ -145,4 +146,59 @@ func c09(tier string) int {
 func c09Uniform(run *ev.Run, states *int, trans *int64) {
 	// Filled in by uniform.go.
 	uniformTable(run, "C09", states, trans)
+}
+
+// c09AfterLarge: the rules once the witness holds a LARGE checkpoint (its
+// stored, cosigned copy is longer than what was submitted, so a byte-length
+// boundary can fall between the two): first use of a note of exactly K bytes
+// for K around 4 KiB, 16 KiB, 64 KiB and 1 MB, then one request per rule -
+// each must get the model's verdict and, for the four refusals after a
+// checkpoint is stored, the stored checkpoint.
+func c09AfterLarge(run *ev.Run) {
+	u := uni.New(ev.Seed(), 8, []int{0})
+	gen := wh.NewCPGen(u)
+	la := wh.LogCfg{Origin: logA(), Key: u.K1}
+	m, f := u.Main, u.Forks[0]
+	for _, store := range []string{"mem", "sql"} {
+		for _, k := range []int{4000, 4096, 16000, 16200, 16300, 16384, 16385, 65536, 999000} {
+			e := wh.NewEnv(u, wh.Config{Store: store, Logs: []wh.LogCfg{la}})
+			cp, meta := gen.Get(la, m, 4, fmt.Sprintf("pad%d", k))
+			if out := e.Do(wh.Req{LogID: la.ID(), CP: cp, Meta: meta}); out.Class != wh.OK {
+				e.Close()
+				continue // a size the witness does not take at all: C08's subject
+			}
+			st := wh.MState{Has: true, Size: 4, Root: meta.Root, Branch: m}
+			mk := func(b *uni.Branch, old uint64, n int, proof [][]byte, label string) wh.Req {
+				c, mt := gen.Get(la, b, n, "plain")
+				return wh.Req{LogID: la.ID(), Old: old, CP: c, Proof: proof, Meta: mt, Label: label}
+			}
+			for _, r := range []wh.Req{
+				mk(m, 9, 8, nil, "old size above the checkpoint size"),
+				mk(m, 3, 6, m.Proof(3, 6), "stale old size"),
+				mk(f, 4, 4, nil, "same size, other root"),
+				mk(m, 4, 6, m.Proof(3, 6), "bad proof"),
+				mk(m, 4, 6, m.Proof(4, 6), "consistent growth"),
+			} {
+				exp := wh.Model(&la, st, r)
+				before := string(e.Stored(la.ID()))
+				out := e.Do(r)
+				run.Add("after_large_requests", 1)
+				got := "nil"
+				switch {
+				case out.Bytes == nil:
+				case string(out.Bytes) == before:
+					got = "stored"
+				case out.Class == wh.OK:
+					got = "new"
+				default:
+					got = "other"
+				}
+				if exp.Claimed && (out.Class != exp.Class || got != exp.Ret) {
+					run.Report(fmt.Sprintf("after-large-checkpoint verdict expected=%s/%s got=%s/%s", exp.Class, exp.Ret, out.Class, got), fmt.Sprintf("%s store, witness holding a checkpoint submitted as exactly %d bytes: request %q answered %s/%s (%v), the rules say %s/%s", store, k, r.Label, out.Class, got, out.Err, exp.Class, exp.Ret), map[string]any{"kind": "after-large", "store": store, "bytes": k})
+					break
+				}
+			}
+			e.Close()
+		}
+	}
 }
